@@ -89,18 +89,18 @@ def structural_devs(prop, qr, decoded=None):
     c1, c2 = R.format_positions(v)
     w1 = R.read_word(m, c1)
     if w1 != fw:
-        devs.append(Dev(prop + '/format-copy1', 'format copy 1 is %015b, expected %015b for %s/%s/%d' % (w1, fw, v, lvl, mask)))
+        devs.append(Dev(prop + '/format-copy1', 'format copy 1 is {:015b}, expected {:015b} for {}/{}/{}'.format(w1, fw, v, lvl, mask)))
     if c2 is not None:
         w2 = R.read_word(m, c2)
         if w2 != fw:
-            devs.append(Dev(prop + '/format-copy2', 'format copy 2 is %015b, expected %015b for %s/%s/%d' % (w2, fw, v, lvl, mask)))
+            devs.append(Dev(prop + '/format-copy2', 'format copy 2 is {:015b}, expected {:015b} for {}/{}/{}'.format(w2, fw, v, lvl, mask)))
     if not R.is_micro(v) and v >= 7:
         a, b = R.read_version_info(m, v)
         g = R.golay18_6(v)
         if a != g:
-            devs.append(Dev(prop + '/version-copy-upper-right', '%018b != %018b' % (a, g)))
+            devs.append(Dev(prop + '/version-copy-upper-right', '{:018b} != {:018b}'.format(a, g)))
         if b != g:
-            devs.append(Dev(prop + '/version-copy-lower-left', '%018b != %018b' % (b, g)))
+            devs.append(Dev(prop + '/version-copy-lower-left', '{:018b} != {:018b}'.format(b, g)))
     des = str(v) + ('-' + lvl if lvl else '')
     if qr.designator != des:
         devs.append(Dev(prop + '/meta-designator', '%r != %r' % (qr.designator, des)))
